@@ -136,9 +136,6 @@ func main() {
 			add(dg.Random(rng.Fork(), opts, i), "random")
 		}
 	}
-	if n := repairTypedCookieEncoders(b.Dir); n > 0 {
-		res.Extra["typed_cookie_client_encoders_repaired"] = fmt.Sprint(n, " (goa finding C01 non-string-cookie: the generated client does not compile otherwise)")
-	}
 	if err := b.Build(); err != nil {
 		panic(err)
 	}
